@@ -34,6 +34,8 @@ func runC04(c *Ctx) {
 	runC04R11(c, "R11-override-extends-refreshed-groups")
 	r.Rule("R12-refresh-adopts-identity", "a refresh that adopts the new ID token adopts its e-mail, user, groups and preferred user name with it (shared with C12.R9, round 7)", 3)
 	runC12R9(c, "R12-refresh-adopts-identity")
+	r.Rule("R13-azure-verify-nil-only-verified", "the legacy Azure provider's verifySessionToken answers nil only without a verifier or after a Verify call of the path succeeded (round 8)", 1)
+	runAzureVerifyNilOnlyVerified(c, "R13-azure-verify-nil-only-verified")
 	r.Rule("R9-legacy-toggle-table", "each insecure OIDC toggle is converted from the legacy flag of the same meaning", 4)
 	r.Rule("R10-verifier-options-per-issuer", "every verifier is built from an options value of its own (no options object shared between issuers)", 2)
 	r.Rule("R8-claims-target-fresh", "every go-oidc Claims() target is a variable allocated in the calling invocation", 3)
